@@ -140,6 +140,17 @@ class RecDom(RecorderDomain):
             star = {a.arg for a in (fa.vararg, fa.kwarg) if a is not None}
             if star and any(isinstance(x, ast.Subscript) and isinstance(x.value, ast.Name) and x.value.id in star for x in ast.walk(node.ast)):
                 state = state.with_extra(argtouch=True)
+        if node.kind == 'enter' and node.info.get('reentry'):
+            # the body calls the public API after having run nested interceptions: ordinals / captured outputs are already used
+            pb = state.env.get(('F', 'self', r.playback))
+            ac = state.env.get(('F', 'self', r.active))
+            replaying = pb is not None and self.is_none(pb, state) is not True
+            recording = ac is not None and self.is_none(ac, state) is not True
+            if replaying or recording:
+                state = state.copy()
+                state.env[('F', 'self', r.counter)] = V('obj', ('havoc', 'counter-after-body'), EMPTY)
+                if replaying:
+                    state.env[('F', 'self', r.outputs)] = V('obj', ('havoc', 'outputs-after-body'), EMPTY)
         if node.kind == 'join' and node.info.get('finally_tag') and node.frame.func is r.start:
             state = state.with_extra(scope_exit=node.info['finally_tag'])
         if node.kind == 'stmt' and isinstance(node.ast, ast.Assign) and node.frame.func is r.force and \
@@ -487,6 +498,51 @@ def ordinals_only_when_intercepted_clause(ctx, res, prop, clause_id):
                             'an output call that is not intercepted still performs %s: ordinals recorded for the intercepted calls are shifted by '
                             'calls that do not take place (or are not numbered) during replay' % ','.join(w),
                             witness=d.path_to(n, s), entry=cl.qualname, exit=exit_kind(n)))
+
+
+def helper_closure(ctx, seeds):
+    """seeds plus the package functions they call (module-level functions by name, methods through self / the class name)"""
+    repo = ctx.repo
+    out = []
+    todo = list(seeds)
+    while todo:
+        f = todo.pop()
+        if f is None or f in out:
+            continue
+        out.append(f)
+        for n in ast.walk(f.node):
+            if not isinstance(n, ast.Call):
+                continue
+            g = None
+            if isinstance(n.func, ast.Name):
+                g = f.module.functions.get(n.func.id)
+                if g is None and f.module.imports.get(n.func.id, '').startswith(repo.package + '.'):
+                    dotted = f.module.imports[n.func.id]
+                    m = repo.modules.get(dotted.rsplit('.', 1)[0])
+                    g = m.functions.get(dotted.rsplit('.', 1)[1]) if m is not None else None
+            elif isinstance(n.func, ast.Attribute) and isinstance(n.func.value, ast.Name) and f.cls is not None and \
+                    n.func.value.id in ('self', 'cls', f.cls.name):
+                g = f.cls.lookup(n.func.attr)
+            if g is not None and g not in out:
+                todo.append(g)
+    return out
+
+
+def key_helpers_stateless_clause(ctx, res, prop, clause_id):
+    """the key builders and everything they call keep no state between calls (no memo keyed by ==, no counters): the key of a call
+    is a function of that call alone"""
+    from ..report import Finding
+    roles = ctx.roles
+    c = res.clause(clause_id, 'R-PROV', 'key builders and their helpers are stateless', floor=2)
+    for h in helper_closure(ctx, [roles.key_builders['input'], roles.key_builders['output']]):
+        bad = stateful_constructs(h)
+        c.instance('%s keeps no state across calls' % h.qualname, h.qualname, not bad)
+        c.evaluations += 1
+        for n, what in bad[:2]:
+            res.add(Finding(prop, clause_id, 'R-PROV', h.file, h.qualname, getattr(n, 'lineno', h.node.lineno), what,
+                            'a helper on the key path keeps state between calls (%s): two different calls can share one key (values that '
+                            'compare equal but serialize differently, objects mutated between calls), so replay hands one call the other\'s '
+                            'recorded value' % what))
 
 
 def stateful_constructs(func):
